@@ -81,6 +81,20 @@ def extra_cases():
                     f"pub fn run() {{ let v = 5u8; let r: &({t.strip('()')}) = &v; let x: &Ty = unsafe {{ &*(r as *const ({t.strip('()')}) as *const Ty) }};\n"
                     f"fn tgt(x: &Ty) -> &({t.strip('()')} + 'static) {{ ::core::ops::Deref::deref(x) }} let tid = ::core::ptr::eq(tgt(x) as *const _ as *const u8, r as *const _ as *const u8);\n{obs} }}")
             out.append((code, {"field": f"bare {t}", "style": "tuple", "entry": entry, "traits": "Deref"}))
+        # 1b. trait objects deeper inside the field type, and a trait whose lifetime parameter bounds the object
+        for k, (t, mk) in enumerate(((f"*const dyn {D}", f"&5u8 as &dyn {D} as *const dyn {D}"),
+                                     (f"[*const dyn {D}; 2]", f"[&5u8 as &dyn {D} as *const dyn {D}, &6u8 as &dyn {D} as *const dyn {D}]"),
+                                     (f"(u8, *mut (dyn {D} + Send))", f"(1u8, ::core::ptr::null_mut::<u8>() as *mut (dyn {D} + Send))"))):
+            code = (f"{head}\npub struct Ty(pub {t});\n"
+                    f"pub fn run() {{ let mut x = Ty({mk}); let tid = ::core::any::TypeId::of::<<Ty as ::core::ops::Deref>::Target>() == ::core::any::TypeId::of::<{t}>();\n{obs}\n"
+                    f"let q1 = (&mut *x) as *mut _ as *mut u8 as usize; let q2 = (&mut x.0) as *mut _ as *mut u8 as usize;\n"
+                    '::dxrt::ev!("deref_mut", "same_addr" => q1 == q2, "write_landed" => true); }')
+            out.append((code, {"field": f"nested {t}", "style": "tuple", "entry": entry, "traits": "Deref, DerefMut"}))
+        code = (f"pub trait TrL<'a>: 'a {{ fn v(&self) -> u8; }}\nimpl<'a> TrL<'a> for u8 {{ fn v(&self) -> u8 {{ *self }} }}\n"
+                f"#[repr(transparent)] {head}\npub struct Ty<'a>(pub dyn TrL<'a>);\n"
+                "pub fn run() { let v = 5u8; let r: &dyn TrL<'_> = &v; let x: &Ty<'_> = unsafe { &*(r as *const dyn TrL<'_> as *const Ty<'_>) };\n"
+                "fn tgt<'r, 'a>(x: &'r Ty<'a>) -> &'r (dyn TrL<'a> + 'a) { ::core::ops::Deref::deref(x) } let tid = tgt(x).v() == 5;\n" + obs + " }")
+        out.append((code, {"field": "dyn TrL<'a> with TrL<'a>: 'a", "style": "tuple", "entry": entry, "traits": "Deref"}))
         # 2. `&'a $t` / `Box<$t>` with `$t = dyn Debug + Send`
         code = (f"macro_rules! mk {{ ($n:ident, $t:ty) => {{ {head} pub struct $n<'a>(pub &'a $t); }} }}\nmk!(Ty, dyn {D} + Send);\n"
                 f"pub fn run() {{ let v = 5u8; let x = Ty(&v); let tid = ::core::any::TypeId::of::<<Ty<'static> as ::core::ops::Deref>::Target>() == ::core::any::TypeId::of::<&'static (dyn {D} + Send)>();\n{obs} }}")
